@@ -19,6 +19,9 @@ type c04Case struct {
 	Plan []sess.Step `json:"plan"`
 	// the application colours the buffer (SyntaxHighlighter): colours only, the cells are the same
 	Hilite bool `json:"hilite,omitempty"`
+	// HintW: display widths of the status texts an application command (bound to C-t) shows
+	// under the line with Hint.Set, one per invocation
+	HintW []int `json:"hint_w,omitempty"`
 }
 
 var c04Prompts = []string{"> ", "$ ", "", "\x1b[1;32muser@host\x1b[0m:\x1b[34m~/src\x1b[0m$ ", "世界> ", "λ ", "line one\n> ", "a very long prompt that takes quite some room >> ", "#"}
@@ -208,6 +211,15 @@ func c04Gen(r *rand.Rand, tier string, idx int) any {
 			add("\x04", "delchar")
 		}
 	}
+	if !vi && r.Intn(4) == 0 {
+		// an application command showing a status text under the line: widths around the
+		// terminal width and its multiples
+		for i, n := 0, 1+r.Intn(3); i < n; i++ {
+			c.HintW = append(c.HintW, pick(r, []int{c.W - 1, c.W, c.W, c.W + 1, 2 * c.W, c.W / 2, 3}))
+			at := 1 + r.Intn(len(plan))
+			plan = append(plan[:at], append([]sess.Step{{W: "\x14", Tag: "app-hint"}}, plan[at:]...)...)
+		}
+	}
 	c.Plan = plan
 	return c
 }
@@ -376,6 +388,16 @@ func c04Run(env *fw.Env, raw json.RawMessage) fw.Outcome {
 		if c.Pre > 0 {
 			fmt.Fprint(os.Stdout, strings.Repeat("\r\n", c.Pre))
 		}
+		if len(c.HintW) > 0 {
+			shown := 0
+			sh := s.Sh
+			sh.Keymap.Register(map[string]func(){"verif-status": func() {
+				w := c.HintW[shown%len(c.HintW)]
+				shown++
+				sh.Hint.Set(strings.Repeat("status 12 ", w/10+1)[:w])
+			}})
+			sh.Config.Bind("emacs", "\x14", "verif-status", false)
+		}
 		if c.Hilite {
 			s.Sh.SyntaxHighlighter = func(line []rune) string {
 				var sb strings.Builder
@@ -433,6 +455,9 @@ func c04Run(env *fw.Env, raw json.RawMessage) fw.Outcome {
 			rows := (lw + c.W) / c.W // one more row when the line fills a row exactly
 			_ = k
 			rowsNeeded += rows
+		}
+		if sn.Hint != "" {
+			rowsNeeded += widthOf(sn.Hint) / c.W
 		}
 		if rowsNeeded >= c.H-1 {
 			o.Add("frames_skipped_taller_than_screen", 1)
@@ -561,7 +586,7 @@ func init() {
 		ID:        "C04",
 		Level:     "exploration",
 		NeedsTerm: true,
-		Rule: "sessions that recall preloaded history entries (ASCII, Latin-1, CJK wide, combining, tabs, embedded newlines; display widths W*k-2..W*k+2 minus the prompt) and then edit/move with real commands, on terminals 8-120 x 6-40 with 9 prompt shapes, optionally started near the bottom of the screen; at every main wait the emulator grid (two ESC[K models; a frame is wrong only if wrong under both) is compared with an independent layout (prompt, wrapping incl. wide characters at the margin, one row per embedded newline with a free start column, blank elsewhere, cursor cell, no remnants of earlier taller frames). " +
+		Rule: "sessions that recall preloaded history entries (ASCII, Latin-1, CJK wide, combining, tabs, embedded newlines; display widths W*k-2..W*k+2 minus the prompt) and then edit/move with real commands, on terminals 8-120 x 6-40 with 9 prompt shapes, optionally started near the bottom of the screen, one Emacs session in four with an application command that shows status texts under the line (Hint.Set) of widths W-1, W, W+1, 2W; at every main wait the emulator grid (two ESC[K models; a frame is wrong only if wrong under both) is compared with an independent layout (prompt, wrapping incl. wide characters at the margin, one row per embedded newline with a free start column, blank elsewhere, cursor cell, no remnants of earlier taller frames). " +
 			"distinct non-trivial = distinct (newline count, wrap-boundary class, content class, cursor class, grew/shrank) tuples among judged frames",
 		Assumptions: []string{"the input area fits the screen height", "history-autosuggest off, no syntax highlighter, no right prompt", "tab width: any single width 1-8 explaining the frame is accepted", "start column of continuation lines is free (cells left of it are don't-care)"},
 		N: func(tier string) int {
